@@ -36,6 +36,10 @@ def load_prop(pid: str):
 def known_findings(pid: str):
     f = VERIF / "known_findings.json"
     entries = json.loads(f.read_text()) if f.exists() else []
+    d = VERIF / "known_findings.d"          # per-property fragments (development); merged into the file
+    if d.is_dir():
+        for g in sorted(d.glob("*.json")):
+            entries += json.loads(g.read_text())
     out = {}
     for e in entries:
         if isinstance(e, dict) and e.get("property") == pid and "id" in e:
